@@ -1,10 +1,10 @@
 (* C01 -- AVL tree stays a balanced, correctly linked search tree under any history.
    Model: C01/AvlDefs.v (run / step / ins / rem / search / heap_of).  Vocabulary: C01/AvlProofs.v
    (sorted, Bst, Balanced, linsert, ldelete), C01/AvlHistory.v (amap, a_step, a_run, reachable, ids,
-   fresh_ids), C01/AvlHeap.v (Repr).  Non-vacuity Examples: C01/AvlExamples.v.
+   fresh_ids), C01/AvlHeap.v (Repr), C01/AvlOrder.v (mapk, op_mapk, order_preserving).  Non-vacuity Examples: C01/AvlExamples.v.
    Every theorem quantifies over ALL finite histories from the empty tree. *)
 From Coq Require Import ZArith List.
-From LibaV Require Import C01.AvlDefs C01.AvlProofs C01.AvlHistory C01.AvlHeap C01.AvlExamples.
+From LibaV Require Import C01.AvlDefs C01.AvlProofs C01.AvlHistory C01.AvlHeap C01.AvlOrder C01.AvlExamples.
 Import ListNotations.
 Local Open Scope Z_scope.
 
@@ -95,3 +95,12 @@ Print Assumptions c01_heap_links_reachable.
 Theorem c01_avl_height_log : forall t, Balanced t -> height t <= 2 * Z.log2 (size t + 1) + 1.
 Proof. exact avl_height_log_proof. Qed.
 Print Assumptions c01_avl_height_log.
+
+(* "Over all key sets": only the relative order of keys matters.  Relabelling every key of a history by
+   an order-preserving map relabels the keys in the resulting tree and changes nothing else -- same
+   shape, node ids, stored factors and returned pointers (and an error would be preserved too).  So the
+   theorems above, stated for Z keys, cover every totally ordered key set that embeds in Z. *)
+Theorem c01_avl_order_only : forall f, order_preserving f -> forall ops,
+  run (map (op_mapk f) ops) E = option_map (fun '(t, obs) => (mapk f t, obs)) (run ops E).
+Proof. exact avl_order_only_proof. Qed.
+Print Assumptions c01_avl_order_only.
